@@ -98,10 +98,9 @@ class PerCPUVar(Sequence):
 
     def __getitem__(self, key):
         if 0 <= key < len(self):
+            reader = getattr(self.instance.ebpf, self.descriptor.map.name)
             return self.descriptor.unpack(
-                self.instance,
-                getattr(self.instance.ebpf, self.descriptor.map.name)
-                .data[key * self.descriptor.map.size:])
+                self.instance, reader.data[key * reader.size:])
         else:
             raise IndexError(f"no such CPU #{key}")
 
@@ -180,10 +179,14 @@ class PerCPUReader:
         self.map = map
         self.fd = fd
         self.data = None
+        # the map descriptor is shared by all instances of a program class,
+        # which may differ in size: remember the size of this one
+        self.size = map.size
+        self.cpu_no = map.cpu_no
 
     def read(self):
         self.data = memoryview(lookup_elem(self.fd, bytes(4),
-                               self.map.size * self.map.cpu_no))
+                               self.size * self.cpu_no))
 
 
 class PerCPUArrayMap(ArrayMap):
